@@ -449,6 +449,15 @@ class TheJoker:
         for name in self.prior.par_names:
             unit = getattr(self.prior.pars[name], xu.UNIT_ATTR_NAME)
             mcmc_init[name] = MAP_sample[name].to_value(unit)
+
+            # Angles made with pymc_ext's angle() (the default omega and M0) are
+            # Deterministics of two free variables: pymc ignores a start value for
+            # the angle itself, so start the free variables behind it as well
+            aux1, aux2 = f"__{name}_angle1", f"__{name}_angle2"
+            if aux1 in model.named_vars and aux2 in model.named_vars:
+                angle_rad = MAP_sample[name].to_value(u.radian)
+                mcmc_init[aux1] = np.sin(angle_rad)
+                mcmc_init[aux2] = np.cos(angle_rad)
         if custom_func is not None:
             mcmc_init = custom_func(mcmc_init, MAP_sample, model)
         mcmc_init = {k: np.squeeze(v) for k, v in mcmc_init.items()}
